@@ -170,6 +170,9 @@ def run(ctx):
         for cfl in (1.0, 0.5) + ((0.9,) if th else ()):
             k = len(S) * 3
             cfg.append((mname, "extrapol1", cfl, S, (0.5, 1.0, 2.0), 0, k ** 3))
+            # the same width letters at a scale of 1e-9, and cells equal to within a few 1e-6
+            cfg.append((mname, "extrapol1", cfl, S, (0.5e-9, 1e-9, 2e-9), 0, k ** 3))
+            cfg.append((mname, "extrapol1", cfl, S, (1.0, 1.000001, 0.999998), 0, k ** 3))
     # muscl: uniform mesh, 5-windows
     for mname in ("convection+", "convection-", "burgers"):
         for lim in space.LIMITERS:
@@ -198,7 +201,7 @@ def run(ctx):
                         for mspec in (("uni", 4, 4.0, -0.5), ("uni", 3, 3.0, -1.5), ("uni", 4, 0.4, -0.05), ("uni", 5, 5.0, 7.25)):
                             cfg2.append((mname, rname, iname, cfl, mspec, space.S_QUICK if mspec[1] == 5 else S, 3))
                 if rname == "extrapol1" and mname != "burgers":
-                    for wv in space.width_vectors(3) + (space.width_vectors(4)[::3] if th else space.width_vectors(4)[::9]):
+                    for wv in space.width_vectors(3) + (space.width_vectors(4)[::3] if th else space.width_vectors(4)[::9]) + space.ODD_SCALE_WIDTHS + [(0.5e-9, 2e-9, 1e-9)]:
                         cfg2.append((mname, rname, iname, 1.0 if iname == "explicit" else 0.5, ("w", wv), space.S_QUICK, 3))
     cfg2.sort(key=lambda c: -(len(c[5]) ** (c[4][1] if c[4][0] == "uni" else len(c[4][1]))))
     ctx.pmap("bfs-range-tvd", shard_bfs, cfg2)
